@@ -210,7 +210,7 @@ impl<'a> SentenceGen<'a> {
 /// Join token texts with random whitespace. `[*]` written as three tokens and a
 /// lone "[" followed by "]"/"?" never occur in sentences, so adjacency is safe.
 pub fn join_tokens(parts: &[String], rng: &mut Rng) -> String {
-    let ws = [" ", " ", "  ", "\t", "\n", "\r\n"];
+    let ws = [" ", " ", "  ", "\t", "\n", "\r\n", "\r"];
     let mut s = String::new();
     for (i, p) in parts.iter().enumerate() {
         if i > 0 {
